@@ -24,5 +24,6 @@ def check(A):
     R.asgi_rules(A, 'C15')
     R.asgi_body_rule(A, 'C15')
     R.asgi_header_codec_rule(A, 'C15')
+    R.driver_environ_rule(A, 'C15')
     R.generate_id_rules(A, 'C15')
     R.driver_response_rules(A, 'C15')
